@@ -34,6 +34,8 @@ const (
 	vc2FP    = 2147483647
 )
 
+var vc2Dump = false
+
 var errVerifCache2 = errors.New("verif: storage failure")
 
 // watchdog state: the history being run and a step counter (real time; read by a goroutine outside the bubble)
@@ -136,6 +138,8 @@ type vc2Hist struct {
 	size         int // runtimeInfo().size() after the last step
 	nextRid      int64
 	lastBuckets  int
+	minChunkLat  int64 // min lastAccessTime over attached chunks at the last snapshot (units), MaxInt64 if none
+	wokenAged    int64 // maxAge of a SetLimits step that woke the trim goroutine, else 0
 	limits       cache2Limits
 }
 
@@ -246,11 +250,15 @@ func vc2RunHistory(cs int64, gen func(h *vc2Hist) *vc2Op) *vc2Hist {
 
 		snapshot := func() (fp int64, actualSize, nBuckets, nChunks, nAw, nLoading int) {
 			info := c.runtimeInfo()
+			h.minChunkLat = int64(1) << 62
 			acc := int64(1)
 			for _, x := range []int{info.sizeS[0], info.sizeS[1], info.bucketCountS[0], info.bucketCountS[1], info.chunkSizeS[0], info.chunkSizeS[1], info.chunkCountS[0], info.chunkCountS[1]} {
 				acc = vc2Mix(acc, int64(x))
 			}
 			acc = vc2Mix(acc, rel(info.minChunkAccessTime))
+			if vc2Dump {
+				fmt.Fprintf(os.Stderr, " info %+v minacc=%d\n", info, rel(info.minChunkAccessTime))
+			}
 			var steps []int64
 			for d := range c.shards {
 				steps = append(steps, int64(d/time.Second))
@@ -280,6 +288,9 @@ func vc2RunHistory(cs int64, gen func(h *vc2Hist) *vc2Op) *vc2Hist {
 			for _, x := range bs {
 				b := x.b
 				b.mu.Lock()
+				if vc2Dump {
+					fmt.Fprintf(os.Stderr, "  bucket s%d k%d lat=%d play=%d n=%d\n", x.step, x.key, rel(b.lastAccessTime), int64(b.playInterval/time.Second), len(b.chunks))
+				}
 				for _, v := range []int64{x.step, x.key, rel(b.lastAccessTime), int64(b.playInterval / time.Second), int64(len(b.chunks))} {
 					acc = vc2Mix(acc, v)
 				}
@@ -293,6 +304,9 @@ func vc2RunHistory(cs int64, gen func(h *vc2Hist) *vc2Op) *vc2Hist {
 						h.fails["cache2_bucket_index_disagrees"] = true
 					}
 					startRel := ch.start/int64(time.Second) - baseSec
+					if vc2Dump {
+						fmt.Fprintf(os.Stderr, "   chunk s%d k%d start=%d loading=%d inv=%d lsa=%d lat=%d size=%d aw=%d data=%v\n", x.step, x.key, startRel, ch.loading, rel(ch.invalidatedAt), rel(ch.loadStartedAt), rel(ch.lastAccessTime), ch.size, len(ch.awaiters), ch.data != nil)
+					}
 					for _, v := range []int64{startRel, int64(ch.loading), rel(ch.invalidatedAt), rel(ch.loadStartedAt), rel(ch.lastAccessTime), int64(ch.size), int64(len(ch.awaiters))} {
 						acc = vc2Mix(acc, v)
 					}
@@ -311,6 +325,9 @@ func vc2RunHistory(cs int64, gen func(h *vc2Hist) *vc2Op) *vc2Hist {
 						for i := range ch.data {
 							acc = vc2Mix(acc, vc2RowsLoad(ch.data[i], x.step, x.key, startRel+int64(i)*x.step, baseSec))
 						}
+					}
+					if l := rel(ch.lastAccessTime); l < h.minChunkLat {
+						h.minChunkLat = l
 					}
 					nChunks++
 					nAw += len(ch.awaiters)
@@ -397,6 +414,9 @@ func vc2RunHistory(cs int64, gen func(h *vc2Hist) *vc2Op) *vc2Hist {
 				}
 				if n != h.limits {
 					woken := n.maxSizeSoft < h.size
+					if woken && n.maxAge > 0 {
+						h.wokenAged = op.a[0]
+					}
 					if woken {
 						h.frozen = n.maxAge > 0
 					} else if n.maxAge > 0 {
@@ -469,6 +489,9 @@ func vc2RunHistory(cs int64, gen func(h *vc2Hist) *vc2Op) *vc2Hist {
 				}
 				evs = append(evs, fmt.Sprintf("(%s,%s,%s)", vu.Z(g.rid), vu.B(g.err != nil), vu.ListZ(ls)))
 			}
+			if vc2Dump {
+				fmt.Fprintf(os.Stderr, "STEP %d %s\n", len(h.ops), op.text())
+			}
 			fp, actual, nB, nC, nAw, nLoading := snapshot()
 			info := c.runtimeInfo()
 			h.size = info.size()
@@ -512,6 +535,15 @@ func vc2RunHistory(cs int64, gen func(h *vc2Hist) *vc2Op) *vc2Hist {
 				h.kinds["trimmed"] = true
 			}
 			h.lastBuckets = nB
+			if op.kind == 'S' && h.wokenAged > 0 {
+				h.kinds["aged_trim"] = true
+				if h.minChunkLat < h.nowU-h.wokenAged {
+					// not a clause of C23: trimAged left a chunk older than maxAge behind (the removal loop skips the
+					// chunks that follow a removed run); the model reproduces it (Model.rc_go)
+					h.kinds["aged_chunk_survived_trimAged"] = true
+				}
+			}
+			h.wokenAged = 0
 		}
 	})
 	return h
@@ -768,7 +800,27 @@ func TestVerifCache2(t *testing.T) {
 		vc2G(1, 1, 1, -40, -36, 0, false), vc2L(1, true), vc2T(2), vc2I(1, -39), vc2G(2, 1, 1, -40, -36, 0, false), vc2L(2, true),
 		vc2T(2), vc2G(3, 1, 1, -40, -36, 0, false), vc2I(1, -38), vc2T(1998), vc2G(4, 1, 1, -39, -37, 1, false), vc2T(2), vc2G(5, 1, 1, -39, -37, 1, false), vc2L(3, true)}))
 	w3.emit(o, "directed-same-instant")
+	// ageing: two old chunks, a used one, an old one in one bucket, then maxAge = 0.5 s with the trim goroutine woken
+	pre := []vc2Op{vc2G(1, 1, 1, -12, -8, 0, false), vc2L(1, true), vc2T(2), vc2G(2, 1, 1, -6, -4, 0, false), vc2L(2, true),
+		vc2T(4000), vc2G(3, 1, 1, -8, -6, 0, false), vc2L(3, true), vc2T(2)}
+	k4 := 0
+	w4 := vc2RunHistory(2, func(h *vc2Hist) *vc2Op {
+		k4++
+		switch {
+		case k4 <= len(pre):
+			return &pre[k4-1]
+		case k4 == len(pre)+1:
+			op := vc2S(1001, int64(h.size)*5/4+1, int64(h.size)-1)
+			return &op
+		case k4 == len(pre)+2:
+			op := vc2S(0, int64(h.size)*4+8, 1)
+			return &op
+		}
+		return nil
+	})
+	w4.emit(o, "directed-aged")
 	for i := 0; i < n; i++ {
+		vc2Dump = os.Getenv("VERIF_C2_DUMP") == fmt.Sprintf("r%d", i)
 		vc2Random(r).emit(o, fmt.Sprintf("r%d", i))
 	}
 }
